@@ -41,7 +41,7 @@ Ops(nw) ==
           ELSE {})
     \cup {[Op("lambda", "AUTO", c, <<>>, "p1", r, <<>>, FALSE, bh) EXCEPT !.stdin = si] :
               c \in {1, 2, 3, 4}, r \in {"u", "b"}, bh \in {"ok", "exit3", "logserr", "waiterr", "attacherr"}, si \in BOOLEAN}
-    \cup {Op("setnode", "", 0, <<"n1">>, "p1", "", <<>>, FALSE, d) : d \in {"mem+", "cpu+", "mem-"}}
+    \cup {Op("setnode", "", 0, <<"n1">>, "p1", "", <<>>, FALSE, d) : d \in {"mem+", "cpu+", "mem-", "numa+"}}
     \cup {Op("addnode", "", 0, <<"n9">>, "p1", "", <<>>, FALSE, ""), Op("addnode", "", 0, <<"n1">>, "p1", "", <<>>, FALSE, "")}
     \cup {Op("removenode", "", 0, <<"n2">>, "p1", "", <<>>, FALSE, ""), Op("removepod", "", 0, <<>>, "p1", "", <<>>, FALSE, ""),
           Op("fix", "", 0, <<"n1">>, "p1", "", <<>>, FALSE, "")}
@@ -56,6 +56,7 @@ Valid(s) == /\ \A i \in 1..Len(s.op.targets) : s.op.targets[i] < Len(s.wls)
                                      /\ (s.op.kind = "lambda" => s.op.delta = "ok" /\ ~s.op.stdin /\ s.op.req = "u")
                                      /\ (s.op.kind = "create" => s.op.strategy = "AUTO" /\ s.op.nodes = <<>>))
             /\ (s.op.count = 4 => s.mode = "burst")
+            /\ (s.op.delta = "numa+" => s.nodes = Layout("numa-plain"))     \* one more core with its NUMA placement: NUMA nodes only
             /\ (s.op.kind = "lambda" => (s.op.stdin => s.op.count = 1) /\ (s.op.delta = "attacherr" => s.op.stdin) /\ s.wls = <<>>)
             /\ (Len(s.op.targets) = 2 => Len(s.wls) >= 2)
             /\ (s.nodes = Layout("one-down") => (s.wls = <<>> /\ s.op.kind \in {"removepod", "removenode", "setnode", "addnode", "fix"} /\ s.mode = "fault"))
